@@ -267,6 +267,33 @@ fn handle_strtable(repo: &str, req: &Value) -> Result<Value, String> {
               "text": text, "values": values, "rules": counts}))
 }
 
+/// declaration shape of a struct / enum / fn signature, as data (for the syntactic declaration-shape obligations)
+fn handle_decl(repo: &str, req: &Value) -> Result<Value, String> {
+    let file = req["file"].as_str().ok_or("decl: missing file")?;
+    let name = req["name"].as_str().ok_or("decl: missing name")?;
+    let (_src, ast) = read_file(repo, file)?;
+    fn attrs_of(attrs: &[syn::Attribute]) -> Vec<String> {
+        attrs.iter().filter(|a| !a.path().is_ident("doc")).map(|a| a.to_token_stream().to_string().replace(' ', "")).collect()
+    }
+    fn fields_of(f: &syn::Fields) -> Vec<Value> {
+        f.iter().map(|x| json!({"name": x.ident.as_ref().map(|i| i.to_string()), "ty": x.ty.to_token_stream().to_string().replace(' ', ""), "attrs": attrs_of(&x.attrs)})).collect()
+    }
+    if let Some(it) = find_item(&ast.items, name) {
+        return match it {
+            syn::Item::Struct(s) => Ok(json!({"ok": true, "kind": "decl", "what": "struct", "name": name, "attrs": attrs_of(&s.attrs), "fields": fields_of(&s.fields),
+                "generics": s.generics.to_token_stream().to_string().replace(' ', "")})),
+            syn::Item::Enum(e) => Ok(json!({"ok": true, "kind": "decl", "what": "enum", "name": name, "attrs": attrs_of(&e.attrs),
+                "variants": e.variants.iter().map(|v| json!({"name": v.ident.to_string(), "attrs": attrs_of(&v.attrs), "fields": fields_of(&v.fields)})).collect::<Vec<_>>()})),
+            _ => Err(format!("lost anchor: {} is not a struct/enum", name)),
+        };
+    }
+    if let Some((f, _)) = find_fn(&ast, None, None, name) {
+        return Ok(json!({"ok": true, "kind": "decl", "what": "fn", "name": name, "sig": f.sig.to_token_stream().to_string().replace(' ', ""),
+            "vis": f.vis.to_token_stream().to_string()}));
+    }
+    Err(format!("lost anchor: declaration {} not found in {}", name, file))
+}
+
 fn handle_toks(req: &Value) -> Result<Value, String> {
     let text = req["text"].as_str().ok_or("toks: missing text")?;
     let ts: TokenStream = text.parse().map_err(|e| format!("toks: cannot tokenize: {}", e))?;
@@ -305,6 +332,7 @@ fn main() {
             "type" => handle_type(&repo, &item, &req),
             "toks" => handle_toks(&item),
             "strtable" => handle_strtable(&repo, &item),
+            "decl" => handle_decl(&repo, &item),
             "census" => handle_census(&repo, &item),
             _ => Err(format!("unknown item kind {:?}", kind)),
         };
